@@ -181,6 +181,66 @@ example : (flushFrame witOpen witPingMW false []).1 = some .invalidControl ∧
     (flushFrame witOpen witPingMW false []).2.1.core = witOpen.core :=
   fragmented_control_harmless witOpen witPingMW false [] (by decide) (Or.inl rfl)
 
+/-! `connWrite_error_is_sticky`, `connWrite_error_latched`: one frame write that fails -/
+
+/-- a healthy client (buffer 4096) whose transport fails the very first call — the SetWriteDeadline of the
+    first frame — with error 41 -/
+def witSwdFault : W :=
+  { newW false 4096 false false with keys := [0x37, 0xfa, 0x21, 0x3d, 1, 2, 3, 4], faults := [(0, .fail 41)] }
+/-- the masked ping "hi" as WriteControl would build it there -/
+def witPingFrame : Bytes := controlFrame false 9 [104, 105] (newKey witSwdFault).1
+example : witPingFrame = [0x89, 0x82, 0x37, 0xfa, 0x21, 0x3d, 104 ^^^ 0x37, 105 ^^^ 0xfa] := by decide
+
+/-- witness: Conn.write(ping, deadline 5) returns the transport's error 41 -/
+def witSwdFault_fails : (connWrite witSwdFault 9 5 witPingFrame []).1 = some (.transport 41) := by decide
+
+/-- non-vacuity of `connWrite_error_is_sticky` (failing SetWriteDeadline) -/
+example : (connWrite witSwdFault 9 5 witPingFrame []).2.writeErr.isSome :=
+  connWrite_error_is_sticky witSwdFault 9 5 witPingFrame [] (by rw [witSwdFault_fails]; rfl)
+/-- non-vacuity of `connWrite_error_latched` (failing SetWriteDeadline): the connection was healthy, error 41 is
+    returned, and exactly it is latched -/
+example : (connWrite witSwdFault 9 5 witPingFrame []).2.writeErr = some (.transport 41) :=
+  connWrite_error_latched witSwdFault 9 5 witPingFrame [] (.transport 41) rfl witSwdFault_fails
+/-- evaluated: nothing reached the wire, one transport call was made (the failed SetWriteDeadline(5)) -/
+example : (connWrite witSwdFault 9 5 witPingFrame []).2.wire = [] ∧ (connWrite witSwdFault 9 5 witPingFrame []).2.tcalls = 1 ∧
+    (connWrite witSwdFault 9 5 witPingFrame []).2.log = [.swd 5 (some 41)] := by decide
+
+/-- the client `witF` after its ping went out (two transport calls made, still healthy); the next Write — the
+    4th transport call — is scripted to accept 3 bytes and fail with error 7 -/
+def witF1 : W := run witF (witFOps.take 1)
+example : witF1.writeErr = none ∧ witF1.tcalls = 2 ∧ witF1.wire.length = 8 := by decide +kernel
+/-- a masked text frame "Hello" (second key) in two buffers: header + key, masked payload -/
+def witTextHdr : Bytes := [0x81, 0x85, 1, 2, 3, 4]
+def witTextBody : Bytes := [72 ^^^ 1, 101 ^^^ 2, 108 ^^^ 3, 108 ^^^ 4, 111 ^^^ 1]
+
+/-- witness: the short Write makes Conn.write return error 7 -/
+def witF1_fails : (connWrite witF1 1 0 witTextHdr witTextBody).1 = some (.transport 7) := by decide +kernel
+
+/-- non-vacuity of `connWrite_error_is_sticky` (short transport write, data frame, two buffers) -/
+example : (connWrite witF1 1 0 witTextHdr witTextBody).2.writeErr.isSome :=
+  connWrite_error_is_sticky witF1 1 0 witTextHdr witTextBody (by rw [witF1_fails]; rfl)
+/-- non-vacuity of `connWrite_error_latched` (short transport write) -/
+example : (connWrite witF1 1 0 witTextHdr witTextBody).2.writeErr = some (.transport 7) :=
+  connWrite_error_latched witF1 1 0 witTextHdr witTextBody (.transport 7) (by decide +kernel) witF1_fails
+/-- evaluated: three bytes of the header buffer were accepted, the second buffer was never offered -/
+example : (connWrite witF1 1 0 witTextHdr witTextBody).2.wire = witF1.wire ++ [0x81, 0x85, 1] ∧
+    (connWrite witF1 1 0 witTextHdr witTextBody).2.tcalls = 4 := by decide +kernel
+
+/-- a healthy server whose transport fails the Write of the SECOND buffer (3rd transport call) outright, error 43 -/
+def witSrvFault : W := { newW true 4096 false false with faults := [(2, .fail 43)] }
+/-- non-vacuity of `connWrite_error_latched` / `connWrite_error_is_sticky` (failing Write, a close frame 1000 in two
+    buffers): the close frame did not go out completely, so the error latched is the transport's, not ErrCloseSent -/
+example : (connWrite witSrvFault 8 0 [0x88, 0x02] [3, 232]).2.writeErr = some (.transport 43) :=
+  connWrite_error_latched witSrvFault 8 0 [0x88, 0x02] [3, 232] (.transport 43) rfl (by decide)
+example : (connWrite witSrvFault 8 0 [0x88, 0x02] [3, 232]).2.writeErr.isSome :=
+  connWrite_error_is_sticky witSrvFault 8 0 [0x88, 0x02] [3, 232] (by decide)
+example : (connWrite witSrvFault 8 0 [0x88, 0x02] [3, 232]).2.wire = [0x88, 0x02] := by decide
+
+/-- `connWrite_error_is_sticky` on a connection that is already failed (the sticky error itself is what is
+    returned): `witFailed` -/
+example : (connWrite witFailed 1 0 witTextHdr witTextBody).2.writeErr.isSome :=
+  connWrite_error_is_sticky witFailed 1 0 witTextHdr witTextBody (by decide +kernel)
+
 end NonVacuity
 
 end WS.Props.C10
